@@ -38,7 +38,20 @@ def mr_pass(n, b):
     return False
 
 
+_PRIME_MEMO = {}
+
+
 def is_prime(n):
+    """memoised front of is_prime_raw (the generators ask about the same large numbers again and again)"""
+    if n < (1 << 64):
+        return is_prime_raw(n)
+    r = _PRIME_MEMO.get(n)
+    if r is None:
+        r = _PRIME_MEMO[n] = is_prime_raw(n)
+    return r
+
+
+def is_prime_raw(n):
     """trial division by all primes < 70000 (complete for n < 4.9e9), then Miller–Rabin to the first 16 primes
     (deterministic below 3.3e24 [Sorenson–Webster 2015], probabilistic above)"""
     if n < 2:
@@ -209,7 +222,17 @@ def pmulmod(a, b, m):
     return pmod(pmul(a, b), m)
 
 
+_IRR_MEMO = {}
+
+
 def p_irreducible(f):
+    r = _IRR_MEMO.get(f)
+    if r is None:
+        r = _IRR_MEMO[f] = p_irreducible_raw(f)
+    return r
+
+
+def p_irreducible_raw(f):
     """independent of Ben-Or: Rabin's test (x^(2^m) = x mod f and gcd(x^(2^(m/q)) - x, f) = 1 for prime q | m);
     for deg <= 1: x and x + 1 are irreducible, constants are not"""
     m = pdeg(f)
